@@ -387,8 +387,11 @@ def encode_history(space, n_inits, opt, rec, records, peek, local=None):
         n_new = snap["rows"] - rcd["rows0"]
         for j in range(n_new):
             g = rcd["rows0"] + j
-            expect.append(f"step pos={show_pos(opt.pos_l[g])} row={show_row(results[g], names)} "
-                          f"evalT={tok_rat(opt.eval_times[g])} iterT={tok_rat(opt.iter_times[g])}")
+            # a list that is shorter than the rows (an entry lost for some step) must show up as a disagreement, not stop the harness
+            ev_t = tok_rat(opt.eval_times[g]) if g < len(opt.eval_times) else "MISSING"
+            it_t = tok_rat(opt.iter_times[g]) if g < len(opt.iter_times) else "MISSING"
+            pos_s = show_pos(opt.pos_l[g]) if g < len(opt.pos_l) else "MISSING"
+            expect.append(f"step pos={pos_s} row={show_row(results[g], names)} evalT={ev_t} iterT={it_t}")
         expect.append("trace " + " ".join(_show_ev(e) for e in rcd["ev"]))
         md = snap["memory_dict"]
         md_items = sorted((tuple(int(x) for x in k_), v) for k_, v in md.items())
